@@ -6,6 +6,7 @@ toolchain go1.23.5
 
 require (
 	github.com/anishathalye/porcupine v1.3.0
+	github.com/hashicorp/raft v1.1.1
 	github.com/ipfs/go-block-format v0.0.3
 	github.com/ipfs/go-blockservice v0.1.4
 	github.com/ipfs/go-cid v0.0.7
@@ -75,7 +76,6 @@ require (
 	github.com/hashicorp/go-msgpack v0.5.5 // indirect
 	github.com/hashicorp/go-multierror v1.1.1 // indirect
 	github.com/hashicorp/golang-lru v0.5.4 // indirect
-	github.com/hashicorp/raft v1.1.1 // indirect
 	github.com/hashicorp/raft-boltdb v0.0.0-20190605210249-ef2e128ed477 // indirect
 	github.com/hsanjuan/ipfs-lite v1.1.21 // indirect
 	github.com/huin/goupnp v1.0.0 // indirect
